@@ -23,7 +23,14 @@ package config
 //@ pred effMaxRequests(c *Config) int := c.CircuitBreaker.MaxRequests == 0 ? 1 : c.CircuitBreaker.MaxRequests
 //@ pred docBreaker(c *Config) := c.CircuitBreaker.Enabled ==> c.CircuitBreaker.FailureThreshold > 0 && c.CircuitBreaker.SuccessThreshold > 0
 //@      && c.CircuitBreaker.TimeoutSeconds > 0 && c.CircuitBreaker.IntervalSeconds > 0 && c.CircuitBreaker.MaxRequests >= 0
-//@ pred docMetrics(c *Config) := c.Metrics.Enabled ==> portOK(c.Metrics.Port) && c.Metrics.Path != ""
+// C18 "an accepted configuration either starts a working proxy or fails with a clear error; it never panics or starts
+// half-configured": the metrics server registers metrics.path next to its own /health on one mux - the same path
+// twice is a start-up panic, and a path that is not absolute and clean is registered but never reached by a request
+//@ pred servable(p string) := hasPrefix(p, "/") && (pclean(p) == p || pclean(p) ++ "/" == p)
+//@ pred docMetrics(c *Config) := c.Metrics.Enabled ==> portOK(c.Metrics.Port) && c.Metrics.Path != "" && servable(c.Metrics.Path) && c.Metrics.Path != "/health"
+//@ func servablePath
+//@   props C18
+//@   ensures result == servable(p)
 //@ pred docAdmin(c *Config) := c.AdminAPI.Enabled ==> portOK(c.AdminAPI.Port)
 // logging: the documentation lists levels debug/info/warn/error and formats text/json; the code additionally
 // tolerates "fatal" and "console" (neither required nor forbidden by the documentation).
